@@ -1857,6 +1857,9 @@ class UserSpaceImpl(*_user_space_impl_base):
                         is_derived=True)
 
                 elif attr == "own_refs":
+                    if name in self.model.global_refs:  # To be shadowed
+                        self.model.clear_attr_referrers(
+                            self.model.global_refs[name])
                     selfdict[name] = ReferenceImpl(
                         self, name, None,
                         container=self._own_refs,
